@@ -274,6 +274,61 @@ fn gen_case(rng: &mut Rng, thorough: bool) -> Value {
     json!({"bg": bg, "imgs": imgs, "draws": draws})
 }
 
+/// a wide image (more than 255 columns) in which one colour leaves gaps longer than 255 columns
+/// (before its first sixel of a band, and between two of its runs) and another has a run longer than 255
+fn gen_wide(rng: &mut Rng) -> Value {
+    let w = 258 + rng.below(80) as usize;
+    let h = *rng.pick(&[6usize, 6, 7, 12]);
+    let pal = palette(rng, 4);
+    let (a, b, c) = (pal[0], pal[1 % pal.len()], pal[2 % pal.len()]);
+    let mut px: Vec<Rgb> = vec![a; w * h];
+    for r in 0..h {
+        // b: at the left edge and again after a gap of more than 255 columns
+        let left = rng.below(3) as usize;
+        let right = left + 256 + rng.below((w - left - 256) as u64) as usize;
+        if r % 2 == 0 {
+            px[r * w + left] = b;
+        }
+        px[r * w + right.min(w - 1)] = b;
+        // c: only far to the right in some rows (a long initial gap)
+        if r % 3 == 1 {
+            px[r * w + w - 1 - rng.below(2) as usize] = c;
+        }
+    }
+    let data: Vec<Value> = px.iter().map(|p| json!([p[0], p[1], p[2], 255])).collect();
+    json!({"bg": Value::Null, "imgs": [{"w": w, "h": h, "data": data, "crop": Value::Null}], "draws": [0, 0]})
+}
+
+/// two (or three) cropped views of ONE parent image, same size, different origin, drawn on one handler:
+/// the views share the parent's pixel buffer, only the shape differs
+fn gen_crop_siblings(rng: &mut Rng, thorough: bool) -> Value {
+    let mut parent = gen_image(rng, thorough);
+    let mut guard = 0;
+    while (parent["h"].as_u64().unwrap_or(0) < 9 || parent["w"].as_u64().unwrap_or(0) < 3) && guard < 50 {
+        parent = gen_image(rng, thorough);
+        guard += 1;
+    }
+    let h = parent["h"].as_u64().unwrap_or(0) as usize;
+    let w = parent["w"].as_u64().unwrap_or(0) as usize;
+    if h < 9 || w < 3 {
+        return gen_case(rng, thorough);
+    }
+    let vh = 6 + rng.below((h - 8) as u64 + 1) as usize;
+    let vw = 1 + rng.below((w - 2) as u64 + 1) as usize;
+    let n = 2 + rng.below(2) as usize;
+    let mut imgs = vec![];
+    for _ in 0..n {
+        let r0 = rng.below((h - vh + 1) as u64) as usize;
+        let c0 = rng.below((w - vw + 1) as u64) as usize;
+        let mut im = parent.clone();
+        im["crop"] = json!([r0, r0 + vh, c0, c0 + vw]);
+        imgs.push(im);
+    }
+    let mut draws: Vec<usize> = (0..n).collect();
+    draws.extend(0..n);
+    json!({"bg": Value::Null, "imgs": imgs, "draws": draws})
+}
+
 /// exhaustive validation of the regenerated tables against the real code:
 /// scale(pre(x)) through one-colour opaque images, scale(y) through fully transparent images over bg
 fn table_cases() -> Vec<Value> {
@@ -299,8 +354,12 @@ fn table_cases() -> Vec<Value> {
 pub fn generate(rng: &mut Rng, n: usize, tier: &str) -> Vec<Value> {
     let thorough = tier == "thorough";
     let mut v = table_cases();
-    for _ in 0..n {
-        v.push(gen_case(rng, thorough));
+    for i in 0..n {
+        v.push(match i % 26 {
+            7 => gen_wide(rng),
+            3 | 16 => gen_crop_siblings(rng, thorough),
+            _ => gen_case(rng, thorough),
+        });
     }
     v
 }
